@@ -175,6 +175,15 @@ class RealBook:
         p = self.nm.connected_peers.get(key)
         if p is None:
             return False
+        self.closes = getattr(self, "closes", 0) + 1
+        if not p.hello_received and self.closes % 2 == 0:
+            # the connection ends without a greeting — but not silently: the peer first sends a well-formed message that is not a
+            # greeting (refused: "first message must be Hello"), which is what makes the node close it
+            from skepticoin.networking.messages import GetPeersMessage
+            try:
+                p.handle_message_received(self.header(), GetPeersMessage())
+            except Exception:
+                pass
         self.guard(self.lp.disconnect, p, "test")
         return True
 
